@@ -30,6 +30,7 @@ type SEnv struct {
 	depth int
 	fn    string // for error messages
 	pc    Term   // guard for auxiliary assumptions emitted during evaluation
+	noAssume bool // evaluation must not emit assumptions (axioms, lemmas)
 }
 
 type evalErr string
@@ -70,6 +71,10 @@ func (env *SEnv) value(v *SVal) *SVal {
 	if v.T.S == "" && v.HasAddr {
 		nv := *v
 		nv.T = env.u.loadType(env.cur, v.Addr, v.Go)
+		// heap well-formedness: every stored value satisfies its type invariant
+		if _, isStruct := v.Go.Underlying().(*types.Struct); !isStruct && !env.noAssume {
+			env.u.assume(env.pc, env.u.typeInv(nv.T, v.Go, env.u.comp(env.cur, "alloc")))
+		}
 		return &nv
 	}
 	return v
